@@ -151,6 +151,23 @@ func reinitCases(c *Ctx, w *World, prop string) []HistCase {
 			fail("reinit-changed-existing-round", "a reinit_dkg message naming an existing round changed that round", o)
 		}
 	}})
+	// (e') the same with the live round's identifier plus surrounding white space: another identifier,
+	// hence another round - what the node holds for the live round must not change
+	for _, variant := range []string{round2 + " ", " " + round2, round2 + "\t"} {
+		cr := &ctypes.ReDKG{DKGID: variant, Threshold: 2}
+		for _, u := range w.Users {
+			cr.Participants = append(cr.Participants, ctypes.Participant{Name: u, NewCommPubKey: userKey("stranger").Pub})
+		}
+		em := w.forgedConfirm(round2, "embedded").In.Msg
+		em.DkgRoundID = variant
+		cr.Messages = []storage.Message{em}
+		items = append(append([]Item{}, h2...), w.ReinitItem("carrier-blank", cr, nil, "reinit-crafted-id-with-blank"))
+		cases = append(cases, HistCase{Kind: "reinit-crafted-id-with-blank", User: me, Items: items, Check: func(o RunObs) {
+			if roundProj(o.Before, round2) != roundProj(o.After, round2) {
+				fail("reinit-changed-existing-round", "a reinit_dkg message naming an existing round's identifier plus white space changed that round", o)
+			}
+		}})
+	}
 	// (f) the reinit body carries a message of another (live) round: it must not be applied there
 	mixed := *body
 	mixed.Messages = append([]storage.Message{w.forgedConfirm(round2, "embedded-foreign").In.Msg}, body.Messages...)
